@@ -104,7 +104,7 @@ class PoolAdapter:
     def _submit(self, act, expect_refused=False):
         j = len(self.handles) + 1
         c = {'cb': 0, 'ecb': 0, 'acb': 0, 'tsoft': 0, 'thard': 0, 'tset': 0, 'tcancel': 0,
-             'tbad': 0, 'rel': False, 'late': False}
+             'tbad': 0, 'rel': False, 'late': False, 'lateack': False}
         soft, hard = act.get('soft', 0), act.get('hard', 0)
 
         def cb(v, c=c):
@@ -188,6 +188,11 @@ class PoolAdapter:
         elif n in ('RH_Ack', 'RH_Ready'):
             if not self.outmeta or self.outmeta[0]['t'] != n[3:].upper():
                 raise AssertionError('result pipe head differs from the specification')
+            if n == 'RH_Ack':
+                m0 = self.outmeta[0]
+                h0, c0 = self.handles[m0['j'] - 1], self.cnt[m0['j'] - 1]
+                if pool._cache.get(h0._job) is h0:
+                    c0['lateack'] = m0['pid'] not in [p.pid for p in pool._pool]
             if n == 'RH_Ready':
                 # observation (ghost) fields: did this message give the job's slot back?
                 j = self.outmeta[0]['j']
@@ -313,7 +318,7 @@ class PoolAdapter:
             'ready': bool(h.ready()), 'out': out, 'oarg': oarg, 'lost': lost,
             'cb': c['cb'], 'ecb': c['ecb'], 'acb': c['acb'], 'tsoft': c['tsoft'],
             'thard': c['thard'], 'tset': c['tset'], 'tcancel': c['tcancel'], 'tbad': c['tbad'],
-            'rel': c['rel'], 'late': c['late'],
+            'rel': c['rel'], 'late': c['late'], 'lateack': c['lateack'],
             'incache': pool._cache.get(h._job) is h,
         }
 
